@@ -267,6 +267,14 @@ theorem failed_create_invisible (b : Build) (conv : List Nat → Conv) (st : Sta
   simp only [h]
   rfl
 
+/-- the premises are met by the object `eav_init` leaves (mode 6531 requested, no context yet) ... -/
+example : ∃ e, (eavInit {}).obj = some e ∧ e.rfc = 3 ∧ e.initialized = false := ⟨_, rfl, rfl, rfl⟩
+/-- ... and a concrete history on the idnkit back end: mode 5321 confirmed, a 6531 setup refused because the context cannot be created, then a
+validation - it is the 5321 validator that answers (a non-ASCII local part is refused as such), and nothing is left allocated after `eav_free` -/
+example : (run .idnkit {} {} [.init, .setRfc 1, .setup, .setRfc 3, .setupFail 12, .isEmail [208, 182, 64, 98, 46, 99, 111, 109] ⟨0, none⟩, .free]).toOption.map
+    (fun p => (p.2.map (fun o => match o with | .rc v => v | .verdict _ ec _ _ => (ec : Int) | _ => 0), p.1.liveResults, p.1.resconfLive)) =
+    some ([0, 0, 0, 0, -2, 6, 0], 0, 0) := by decide
+
 /-- in every other situation nothing is created, so nothing can fail: the call is `eav_setup` -/
 theorem setupFail_eq_setup (be : Backend) (st : State) (e : EavT) (r : Int) (h : st.obj = some e)
     (hn : be ≠ .idnkit ∨ e.rfc ≠ 3 ∨ e.initialized = true) : eavSetupFail be st r = eavSetup be st := by
